@@ -223,3 +223,92 @@ def join(values, shifts, jtype):
         rows.append(row)
         mags.append(mag)
     return rows, mags
+
+
+# ---------------------------------------------------------------------------------------------- local tolerance scales
+def prefix_scale(x, dt, up, down, length):
+    """P[j] = dt*(|up|+|down|)*sum_{i<=min(j,n-1)} |x_i|: magnitude of everything that has entered the velocity integral
+    up to sample j (the rounding error of a running sum is relative to this, not to the total of the whole record)."""
+    n = len(x)
+    out = [0.0] * length
+    acc = 0.0
+    f = dt * (abs(up) + abs(down))
+    for j in range(length):
+        if j < n:
+            acc += abs(x[j])
+        out[j] = f * acc
+    return out
+
+
+def running_max_abs(series):
+    out = [0.0] * len(series)
+    m = 0.0
+    for j, v in enumerate(series):
+        if abs(v) > m:
+            m = abs(v)
+        out[j] = m
+    return out
+
+
+def acc_local_scale(x, dt, tau, up, down, length):
+    """A[j] = |up*x_j| + |down|*(|x_i| + |x_{i+1}|), i = floor(j - 2*tau/dt): magnitude of the parts of sample j of the
+    combined motion (both neighbours of the interpolation; the record boundary samples when the position is within one
+    sample of the record)."""
+    n = len(x)
+    s = (2.0 * tau) / dt
+    out = [0.0] * length
+    for j in range(length):
+        a = abs(up * x[j]) if j < n else 0.0
+        p = j - s
+        if -1.0 < p < n:
+            lo = int(p // 1)
+            for i in (lo, lo + 1):
+                if 0 <= i < n:
+                    a += abs(down * x[i])
+        out[j] = a
+    return out
+
+
+# ---------------------------------------------------------------------------------------------- placement alternatives
+def placement_alternatives(n, dt, taus, stt, trim, start):
+    """One alternative per admissible floor(stt/dt). Each = (row_opts, contrib, fixed_len):
+    row_opts[r]  admissible placement shifts of row r;
+    contrib      None, or per-row admissible contributions c_r to the length rule  length = n + max(max_r c_r, 0),
+                 or the string 'rows' when the contributions are the placement shifts themselves;
+    fixed_len    the length when it does not depend on the rows (trimmed output)."""
+    k = len(taus)
+    if not start:
+        row_opts = [[0]] * k
+        if trim:
+            return [(row_opts, None, n)]
+        return [(row_opts, [floor_options(t, dt, 2, n) for t in taus], None)]
+    fts = [floor_options(t, dt, 1, n) for t in taus]
+    alts = []
+    for fs in floor_options(stt, dt, 1, n):
+        ro = [sorted(set(fs - f for f in ft)) for ft in fts]
+        alts.append((ro, None if trim else 'rows', n if trim else None))
+    return alts
+
+
+def length_admissible(length, n, choice_sets):
+    """Is there one choice c_r out of every choice_sets[r] with n + max(max_r c_r, 0) == length ?"""
+    t = length - n
+    if t < 0 or any(min(s) > t for s in choice_sets):
+        return False
+    if t == 0:
+        return True
+    return any(t in s for s in choice_sets)
+
+
+def join_row(values, shift, jtype, length):
+    """One row of the join written into a frame of `length` samples: zero-padded original +/- the copy moved by shift.
+    Returns (row, magnitudes of the parts)."""
+    n = len(values)
+    row, mag = [], []
+    for c in range(length):
+        a0 = float(values[c]) if c < n else 0.0
+        i = c - shift
+        a1 = float(values[i]) if 0 <= i < n else 0.0
+        row.append(a0 + a1 if jtype == 'add' else a0 - a1)
+        mag.append(abs(a0) + abs(a1))
+    return row, mag
